@@ -679,6 +679,25 @@ mod m2s {
         let mut w = W::default();
         w.f32(12.0).fs(&[0.0, 0.0, 1.0]).fs(&[1.0, 0.0, 0.0, 0.0, 1.0, 0.0, 0.0, 0.0, 1.0]).u32(3).raw(b"PHYS-blob");
         fck(&mut o, b"PFDC", &w.0);
+        // chunk types the container seed did not carry before (a seeded regression in DpivChunk::parse was out of
+        // reach of both engines: neither invents a four-character code plus a consistent body):
+        // EXPT with one forward-compatible "unknown type, skip n bytes" record
+        let mut w = W::default();
+        w.u8(7).u32(3).raw(b"abc");
+        fck(&mut o, b"EXPT", &w.0);
+        // WFV1/WFV2: waterfall parameters (the parsers read a prefix of these floats)
+        let mut w = W::default();
+        w.fs(&[1.0, 0.5, 0.25, 2.0, 3.0, 0.0, 0.0, -1.0]);
+        fck(&mut o, b"WFV1", &w.0);
+        fck(&mut o, b"WFV2", &w.0);
+        // TXAC: zero extended texture animations
+        fck(&mut o, b"TXAC", &0u32.to_le_bytes());
+        // DPIV: (count, offset) × {vertex positions, face normals, indices, flags}, offsets relative to the chunk data
+        let mut w = W::default();
+        w.u32(2).u32(32).u32(1).u32(56).u32(3).u32(68).u32(1).u32(74);
+        w.fs(&[0.0, 0.0, 0.0, 1.0, 1.0, 1.0]).fs(&[0.0, 0.0, 1.0]);
+        w.u16(0).u16(1).u16(0).u16(0x0003);
+        fck(&mut o, b"DPIV", &w.0);
         fck(&mut o, b"XXXX", &[0xAA; 6]);
         o
     }
